@@ -649,10 +649,12 @@ func runC02(c *Ctx) {
 	ruleBitFlags(c, p, messagePairs(p), "C02.flags")
 	ruleSettingsEnd(c, p, "C02.settings-end")
 	ruleKeyWidth(c, p, "C02.keywidth")
+	ruleVarintFastPath(c, p, "C02.varint")
 	// the column encoders differ between the default and the pure-Go build: both are what the client writes
 	for _, cf := range c.Configs() {
 		if pc := c.Prog(cf); pc != nil {
 			ruleSwapRegion(c, pc, "C02.swap")
+			ruleExitGuards(c, pc, "C02.guard")
 		}
 	}
 	ruleTableLookups(c, p, "C02.tables")
